@@ -54,6 +54,10 @@ pub struct Log {
     pub late_samples: u64,
     pub worst_late_ns: u64,
     pub samples_in_call: u64,
+    /// iteration-budget model only: a call that draws more samples than this has ignored its
+    /// (virtual) deadline by a wide margin; unwinding with BudgetTrip keeps the checks fast
+    /// when a change under test makes a planner spin
+    pub sample_budget: Option<u64>,
 }
 pub type LogRc = Rc<RefCell<Log>>;
 
@@ -76,6 +80,7 @@ impl Log {
             late_samples: 0,
             worst_late_ns: 0,
             samples_in_call: 0,
+            sample_budget: None,
         }))
     }
     pub fn push(&mut self, ev: Ev) {
@@ -90,6 +95,12 @@ impl Log {
     /// Called at the beginning of every sampler call (before its own tick).
     pub fn on_sampler_begin(&mut self) {
         self.samples_in_call += 1;
+        if let Some(sb) = self.sample_budget {
+            if self.samples_in_call > sb {
+                self.sample_budget = None;
+                std::panic::panic_any(BudgetTrip);
+            }
+        }
         if let (Some(t), Some(fr), Some(now)) = (self.timeout_ns, oxmpl::verif::first_read(), oxmpl::verif::now_nanos()) {
             if now > fr.saturating_add(t) {
                 self.late_samples += 1;
